@@ -92,6 +92,10 @@ class Run:
         self.appended = {}                    # ground truth: payloads appended to each hub queue, in order
         self.chans = [None] * self.n
         self.cb_events = []
+        self.sobj = [None] * self.n           # structured senders: the one message object / payload list they re-use
+        self.spl = [None] * self.n
+        self.snaps = {}                       # header -> (header, payload) deep copy taken at send time
+        self.altered = []                     # structured messages received with a value they never had when sent
         self.away = [False] * self.n
         self.away_where = {}
         self.cur_op = [0] * self.n
@@ -616,6 +620,28 @@ class Run:
             s._line_tracker = None
             s._comm_logger = None
             self.socks[tid] = s
+        if th.get("structured"):
+            # structured delivery: the sender re-uses ONE StructuredMessage object and ONE payload list, changing them
+            # in place before every send; the receiver observes by value; what was sent = a deep copy at send time
+            if op[0] == "send":
+                if self.sobj[tid] is None:
+                    from netqasm.sdk.classical_communication.message import StructuredMessage
+                    self.spl[tid] = []
+                    self.sobj[tid] = StructuredMessage(header="", payload=self.spl[tid])
+                self.spl[tid].append(op[1])
+                self.sobj[tid].header = "h:" + op[1]
+                self.snaps["h:" + op[1]] = ("h:" + op[1], list(self.spl[tid]))
+                s.send_structured(self.sobj[tid])
+                return "ok"
+            if op[0] in ("recv", "recvnb"):
+                import copy
+                msg = s.recv_structured(block=(op[0] == "recv"))
+                got = (getattr(msg, "header", None), copy.deepcopy(getattr(msg, "payload", msg)))
+                want = self.snaps.get(got[0])
+                if want is not None and (want[0], want[1]) == (got[0], got[1]):
+                    return ["msg", got[0][2:]]
+                self.altered.append((tid, got, want))
+                return ["msg", "<altered>"]
         if op[0] == "send":
             s.send(op[1])
             return "ok"
